@@ -120,6 +120,10 @@ def build_shape(g, d, clockwise=None):
     cw = (g.state.direction.value == "clockwise") if clockwise is None else clockwise
     sgn = -1.0 if cw else 1.0
     s = d["shape"]
+    if d.get("full") == "nominal":
+        # the caller works with the nominal (rounded) coordinates of the
+        # current position, as after a traced path that "ended on target"
+        p = tuple(round(x, 9) for x in p)
     if s == "arc":
         r, a0 = d["r"], d["a0"]
         c = (p[0] - r * math.cos(a0), p[1] - r * math.sin(a0))
